@@ -36,6 +36,16 @@ def check(tier):
         f = os.path.join(snip_dir, f"snippet{i:02}.asn")
         open(f, "w").write(sn["text"])
         files.append(f)
+    # names that differ from their Rust spelling carry an identifier annotation, which a leading comment must not change
+    f = os.path.join(snip_dir, "hyphen-names.asn")
+    open(f, "w").write("Hyphen-Names DEFINITIONS AUTOMATIC TAGS ::= BEGIN\nMy-Type ::= INTEGER\nRec-A ::= SEQUENCE { first-one My-Type, second-one BOOLEAN OPTIONAL }\n"
+                       "Pick-B ::= CHOICE { alt-x NULL, alt-y Rec-A }\nmy-value My-Type ::= 5\nEND\n")
+    files.append(f)
+    # a module header with everything X.680 13.1 lets it have: encoding reference default, tag default, extension default, EXPORTS
+    f = os.path.join(snip_dir, "full-header.asn")
+    open(f, "w").write("Full-Header { iso(1) standard(0) 9999 } DEFINITIONS XER INSTRUCTIONS AUTOMATIC TAGS EXTENSIBILITY IMPLIED ::= BEGIN\nEXPORTS ALL;\n"
+                       "Aa ::= INTEGER (0..7)\nBb ::= SEQUENCE { a Aa, b BOOLEAN DEFAULT TRUE }\nEND\n")
+    files.append(f)
     plans_p, sets_p, files_p, trace_p = run.path("plans.ndjson"), run.path("sets.ndjson"), run.path("files.txt"), run.path("trace.ndjson")
     core.write_ndjson(plans_p, plans)
     core.write_ndjson(sets_p, sets)
